@@ -352,6 +352,20 @@ def _run_op(hist, op, idx, *, tape=None, uberjob_kwargs=None, client_wrap=None, 
             return Progress(create)
 
         kwargs["progress"] = (mk("obs0"), mk("obs1"), mk("obs2"))
+    elif prog == "bundled-fail":
+        # the list form of `progress`: a bundled display (it owns an update thread) followed by a member that
+        # cannot start or cannot finish
+        from uberjob.progress import Progress, html_progress
+
+        sink = rec.extra.setdefault("html_out", [])
+
+        def create_failing():
+            ob = RecordingObserver("obs1", fail_enter=cfg.get("fail_kind", "enter") == "enter",
+                                   fail_exit=cfg.get("fail_kind") == "exit")
+            observers.append(ob)
+            return ob
+
+        kwargs["progress"] = [html_progress(sink.append), Progress(create_failing)]
     elif prog is None:
         kwargs["progress"] = None
     else:
